@@ -211,6 +211,50 @@ pub fn run(rng: &mut Rng, n: usize, out: &mut Out, which: &str) {
             }
             // ------------------------------------------------------------------ C06 / C07 interruptions at every point
             "c06" | "c07" => {
+                // one case in three runs on the ENGINE's own searcher with a game history recorded by a position command
+                // (a bare searcher has an empty history: nothing that drops or adds history entries can show there)
+                if which == "c06" && rng.chance(1, 3) {
+                    let start = pick_search_position(&g, &mut st, rng, out, 300);
+                    // a short game that shuffles back and forth, so that the history matters to the later search
+                    let mut b = start;
+                    let mut played: Vec<Move> = Vec::new();
+                    for _ in 0..(2 + rng.below(7)) {
+                        let ms = g.mg.generate_moves(&b);
+                        if ms.is_empty() { break; }
+                        let m = if played.len() >= 2 && rng.chance(3, 4) {
+                            let prev = played[played.len() - 2];
+                            match ms.iter().find(|x| x.from == prev.to && x.to == prev.from && x.piece_type == prev.piece_type && x.move_type == MoveType::Quiet) { Some(x) => *x, None => *rng.pick(&ms) }
+                        } else {
+                            let quiet: Vec<&Move> = ms.iter().filter(|x| x.move_type == MoveType::Quiet && x.piece_type != Piece::Pawn).collect();
+                            if !quiet.is_empty() { **rng.pick(&quiet) } else { *rng.pick(&ms) }
+                        };
+                        played.push(m); b.make_move(&m);
+                    }
+                    let d = 1 + rng.below(3) as u8;
+                    if played.is_empty() || g.mg.generate_moves(&b).is_empty() || nodes_capped(&b, d, 6000) >= 6000 { case -= 1; continue; }
+                    let z = crate::zobrist::ZobristTable::new();
+                    out.run(&mut st, &format!("eng.new {}", zobrist_keys_text(&z)));
+                    let mut line = format!("position fen {}", fen_of(&start));
+                    line += " moves"; for m in &played { line += " "; line += &uci_text(m); }
+                    out.run(&mut st, &format!("eng.pos {} {} | {}", board_text(&start), played.iter().map(mv_text).collect::<Vec<_>>().join(" "), line));
+                    let total = nodes_capped(&b, d, 6000).max(2);
+                    for _ in 0..(1 + rng.below(3)) {
+                        let before = out.run(&mut st, "eng.rep");
+                        let lim = if rng.chance(1, 2) { format!("nodes:{}", 1 + rng.below(total)) } else { format!("polls:{}", rng.below(total)) };
+                        out.run(&mut st, &format!("eng.golim {} {}", d, lim));
+                        let after = out.run(&mut st, "eng.rep");
+                        out.run(&mut st, &format!("eng.repsame {} {}", before, after));
+                        out.count("engine_searches_with_history_cut_off");
+                    }
+                    // a later completed search with the history in place: tied to the model, judged when no deeper record was reused
+                    let d0: u64 = out.run(&mut st, "eng.deeper").parse().unwrap_or(0);
+                    let a = out.run(&mut st, &format!("eng.go {}", d));
+                    let d1: u64 = out.run(&mut st, "eng.deeper").parse().unwrap_or(0);
+                    let f: Vec<&str> = a.split_whitespace().collect();
+                    if !f.is_empty() { out.run(&mut st, &format!("eng.judged {} {} {}", d, f[0], d1.saturating_sub(d0))); }
+                    out.nontrivial(&line);
+                    continue;
+                }
                 let b = pick_search_position(&g, &mut st, rng, out, 300);
                 let d = 1 + rng.below(3) as u8;
                 let mut budget = 3000i64;
